@@ -316,6 +316,33 @@ def _body_local_containers(engine, st, fr, body):
             cid = engine.concrete_id(v.t)
             if cid is not None and cid in st.private and st.objcls.get(cid) in ("list", "deque", "set", "dict"):
                 out.add(cid)
+    # ... and private containers held in FIELDS of objects the body names (`self.fs[f] = True`, `self.jobs.append(x)`): earlier
+    # iterations may have mutated them just as well (unsound otherwise: the pre-loop contents would be assumed at the loop head)
+    owners = set()
+    for nm in names:
+        eid = st.lookup_env(fr.eid, nm)
+        if eid is None:
+            continue
+        v = st.envs[eid][nm]
+        if isinstance(v, Z) and v.sort == "val":
+            cid = engine.concrete_id(v.t)
+            if cid is not None:
+                owners.add(cid)
+    if owners:
+        for hname, arr in st.heap.items():
+            if hname.startswith("$"):
+                continue
+            a = arr
+            while z3.is_app(a) and a.decl().kind() == z3.Z3_OP_STORE:
+                idx, val = z3.simplify(a.arg(1)), a.arg(2)
+                if z3.is_int_value(idx) and idx.as_long() in owners and val.sort() == Val:
+                    k = engine.concrete_id(z3.simplify(val))
+                    if k is not None and k in st.private and st.objcls.get(k) in ("list", "deque", "set", "dict"):
+                        # only the CURRENT value of the field counts
+                        cur = engine.concrete_id(z3.simplify(z3.Select(arr, idx)))
+                        if cur == k:
+                            out.add(k)
+                a = a.arg(0)
     return out
 
 
